@@ -112,6 +112,7 @@ func (c *clipperBase) recursiveCheckOwners(outrec *OutRec, polypath *PolyPathBas
 	}
 
 	for outrec.owner != nil {
+		c.vs.tick("recursiveCheckOwners")
 		if outrec.owner.splits != nil && c.checkSplitOwner(outrec, outrec.owner.splits) {
 			break
 		}
@@ -135,6 +136,7 @@ func (c *clipperBase) recursiveCheckOwners(outrec *OutRec, polypath *PolyPathBas
 
 func (c *clipperBase) checkSplitOwner(outrec *OutRec, splits []int) bool {
 	for _, i := range splits {
+		c.vs.tick("checkSplitOwner")
 		split := c.outrecList[i]
 		if split.pts == nil && len(split.splits) > 0 {
 			if c.checkSplitOwner(outrec, split.splits) {
@@ -289,6 +291,7 @@ func (c *clipperBase) buildPath(op *OutPt, reverse, isOpen bool, path *Path64) b
 	*path = append(*path, lastPt)
 
 	for op2 != op {
+		c.vs.tick("buildPath")
 		if op2.pt != lastPt {
 			lastPt = op2.pt
 			*path = append(*path, lastPt)
@@ -747,10 +750,12 @@ func (c *clipperBase) convertHorzSegsToJoins() {
 			if hs1.leftToRight {
 				for hs1.leftOp.next.pt.Y == currY &&
 					hs1.leftOp.next.pt.X <= hs2.leftOp.pt.X {
+					c.vs.tick("convertHorzSegsToJoins")
 					hs1.leftOp = hs1.leftOp.next
 				}
 				for hs2.leftOp.prev.pt.Y == currY &&
 					hs2.leftOp.prev.pt.X <= hs1.leftOp.pt.X {
+					c.vs.tick("convertHorzSegsToJoins")
 					hs2.leftOp = hs2.leftOp.prev
 				}
 				c.horzJoinList = append(c.horzJoinList, &HorzJoin{
@@ -759,9 +764,11 @@ func (c *clipperBase) convertHorzSegsToJoins() {
 				})
 			} else {
 				for hs1.leftOp.prev != nil && hs1.leftOp.prev.pt.Y == currY && hs1.leftOp.prev.pt.X <= hs2.leftOp.pt.X {
+					c.vs.tick("convertHorzSegsToJoins")
 					hs1.leftOp = hs1.leftOp.prev
 				}
 				for hs2.leftOp.next != nil && hs2.leftOp.next.pt.Y == currY && hs2.leftOp.next.pt.X <= hs1.leftOp.pt.X {
+					c.vs.tick("convertHorzSegsToJoins")
 					hs2.leftOp = hs2.leftOp.next
 				}
 				c.horzJoinList = append(c.horzJoinList, &HorzJoin{
@@ -786,16 +793,20 @@ func (c *clipperBase) updateHorzSegment(hs *HorzSegment) bool {
 		opA := outrec.pts
 		opZ := opA.next
 		for opP != opZ && opP.prev.pt.Y == currY {
+			c.vs.tick("updateHorzSegment")
 			opP = opP.prev
 		}
 		for opN != opA && opN.next.pt.Y == currY {
+			c.vs.tick("updateHorzSegment")
 			opN = opN.next
 		}
 	} else {
 		for opP.prev != opN && opP.prev.pt.Y == currY {
+			c.vs.tick("updateHorzSegment")
 			opP = opP.prev
 		}
 		for opN.next != opP && opN.next.pt.Y == currY {
+			c.vs.tick("updateHorzSegment")
 			opN = opN.next
 		}
 	}
@@ -829,6 +840,7 @@ func (c *clipperBase) doHorizontal(horz *Active) {
 	}
 
 	for {
+		c.vs.tick("doHorizontal.outer")
 		var ae *Active
 		if isLeftToRight {
 			ae = horz.nextInAEL
@@ -1057,6 +1069,7 @@ func (c *clipperBase) reset() {
 
 func (c *clipperBase) clearSolutionOnly() {
 	for c.actives != nil {
+		c.vs.tick("clearSolutionOnly")
 		c.deleteFromAEL(c.actives)
 	}
 
@@ -1363,6 +1376,7 @@ func (c *clipperBase) insertLeftEdge(ae *Active) {
 
 	ae2 := c.actives
 	for ae2.nextInAEL != nil && isValidAelOrder(ae2.nextInAEL, ae) {
+		c.vs.tick("insertLeftEdge")
 		ae2 = ae2.nextInAEL
 	}
 	if ae2.joinWith == JoinRight {
@@ -1461,6 +1475,7 @@ func (c *clipperBase) insertLocalMinimaIntoAEL(botY int64) {
 			}
 
 			for rightBound.nextInAEL != nil && isValidAelOrder(rightBound.nextInAEL, rightBound) {
+				c.vs.tick("insertLocalMinimaIntoAEL")
 				c.intersectEdges(rightBound, rightBound.nextInAEL, rightBound.bot)
 				c.swapPositionsInAEL(rightBound, rightBound.nextInAEL)
 			}
